@@ -353,8 +353,15 @@ impl<T: MessageType> MessageEncoder<T> {
         conn_type: ConnectionType,
         config: &ServiceConfig,
     ) -> io::Result<()> {
+        // 1xx (other than 101, whose "body" is the upgraded stream) and 204 responses never have a
+        // body; see https://datatracker.ietf.org/doc/html/rfc7230#section-3.3.3
+        let bodiless = matches!(
+            message.status(),
+            Some(StatusCode::CONTINUE | StatusCode::PROCESSING | StatusCode::NO_CONTENT)
+        );
+
         // transfer encoding
-        if !head {
+        if !head && !bodiless {
             self.te = match length {
                 BodySize::Sized(0) => TransferEncoding::empty(),
                 BodySize::Sized(len) => TransferEncoding::length(len),
